@@ -293,4 +293,4 @@ def _premises(cx):
     # class-level state that runs read is per class: a table shared by all agent classes lets the set-up of an unrelated model
     # overwrite what a seeded run is using
     include_premises(cx, ['C20'], 'class components and default tags set up for one model\'s classes are not changed by another model\'s set-up',
-                     only=lambda o: o.rule == 'R-SHARED')
+                     only=lambda o: o.rule == 'R-SHARED' or (o.function or '').endswith('Agent.__init__'))
